@@ -178,11 +178,23 @@ def addr_case(res, W, rng, lst, setting):
             net_.listen(ip, 8080, ("error", errs[ip]))
     user_opts = [] if setting == 0 else [(_socket.SOL_SOCKET, _socket.SO_RCVBUF, 4096 + setting)]
     timeout = [3, 7.5, None][setting]
+    via = ["create_connection", "default-timeout", "connect"][(len(lst) + sum(map(len, lst)) + setting) % 3]
     try:
-        w = W.create_connection("ws://multi.test:8080/", timeout=timeout, sockopt=user_opts)
+        if via == "create_connection":
+            w = W.create_connection("ws://multi.test:8080/", timeout=timeout, sockopt=user_opts)
+        elif via == "default-timeout":
+            # the process-wide default applies when the caller gives no timeout
+            W.setdefaulttimeout(timeout)
+            w = W.create_connection("ws://multi.test:8080/", sockopt=user_opts)
+        else:
+            w = W.WebSocket(sockopt=user_opts)
+            w.connect("ws://multi.test:8080/", timeout=timeout)
         kind, exc = "ret", None
     except Exception as e:  # noqa
         kind, exc, w = "exc", e, None
+    finally:
+        W.setdefaulttimeout(None)
+    res.count("via:" + via)
     res.count("address_lists")
     res.case(("addr", lst, setting), nontrivial=len(lst) >= 2)
     case = {"outcomes": lst, "setting": setting}
